@@ -109,7 +109,7 @@ def run(pid, tier):
         real += [(cc, names[(i + C.seed()) % len(names)]) for i, cc in enumerate(ccs[::2])]
     V = presets.variations(P)
     P = dict(P, **V)
-    real += [("USA", "nw_methane_scp"), ("IND", "nw_cellulosic_sugar"), ("IND", "ms_worst")]
+    real += [("USA", "nw_methane_scp"), ("IND", "nw_cellulosic_sugar"), ("IND", "ms_worst"), ("USA", "nw_cellulosic_sugar")]
     for k, (cc, p) in enumerate(real):
         o = dict(P[p])
         if cc == "WOR":
